@@ -95,7 +95,7 @@ func c18One(c *run.C) {
 				sizes = append(sizes, r.Range(1, 40))
 			}
 		}
-		buf = gen.Pick(r, []int{1, 2, 3, 7, 16, 64, 4096})
+		buf = gen.Pick(r, []int{0, 1, 2, 3, 7, 16, 64, 4096})
 		eofData = r.Bool()
 	}
 	truncAt := 0
